@@ -20,7 +20,8 @@ for sid in ids:
     if r.returncode != 0:
         print(sid, "patch does not apply"); continue
     try:
-        r = subprocess.run(["python3", "check.py", prop, "--tier", tier], cwd=VERIF, capture_output=True, text=True)
+        e = dict(os.environ); e["VERIF_EVIDENCE_DIR"] = "/tmp/seed-evidence"
+        r = subprocess.run(["python3", "check.py", prop, "--tier", tier], cwd=VERIF, capture_output=True, text=True, env=e)
     finally:
         subprocess.run(["git", "-C", "/repo", "checkout", "--", "."])
     out = r.stdout
